@@ -23,6 +23,7 @@ import sympy as sp
 
 from bsa import cfg, guards, paths, sym
 from bsa.hir import Missing, callee, peel, place, pp, walk, walk_with_parents
+from rules import caps
 from rules import c07, fdjac
 
 LEVEL = "other"
@@ -299,59 +300,13 @@ def check_stopping(F, run, path, old_name):
     return lps
 
 
-def must_reach(n, pred):
-    """Every path that falls through n executes a node satisfying pred (diverging paths are vacuous)."""
-    k = n.get("k")
-    if pred(n):
-        return True
-    if k in ("ExprS", "Semi"):
-        return must_reach(n["e"], pred)
-    if k == "Block":
-        seq = list(n["stmts"]) + ([n["expr"]] if n.get("expr") is not None else [])
-        if any(cfg.div(s, ("Ret", "Break")) == cfg.TRUE for s in seq):
-            return True
-        return any(must_reach(s, pred) for s in seq)
-    if k == "If":
-        t = must_reach(n["t"], pred) or cfg.div(n["t"], ("Ret", "Break")) == cfg.TRUE
-        e = "e" in n and (must_reach(n["e"], pred) or cfg.div(n["e"], ("Ret", "Break")) == cfg.TRUE)
-        return t and e
-    if k == "Match":
-        return all(must_reach(a["body"], pred) or cfg.div(a["body"], ("Ret", "Break")) == cfg.TRUE for a in n["arms"])
-    return False
-
-
 def check_cap(F, run, path):
+    """R8.3 — the iteration is bounded by the caller's cap (rules/caps.py: for-range, up-counter, down-counter) and exhausting it gives Err."""
     b = F.fn(path)
     st, loop = loop_of(b)
-    ok = loop.get("k") == "While"
-    if loop.get("k") == "For":
-        # `for _ in a..n_max` (or a..=n_max): bounded by construction
-        itx = peel(loop["iter"])
-        hi = None
-        if itx.get("k") == "Struct" and itx.get("def", "").endswith("ops::Range"):
-            hi = {f["name"]: f["e"] for f in itx["fields"]}.get("end")
-        elif itx.get("k") == "Call" and (callee(itx) or "").endswith("RangeInclusive::<Idx>::new"):
-            hi = itx["args"][1]
-        okf = hi is not None and peel(hi).get("k") == "Local" and peel(hi)["name"] == "n_max" and not [x for x in walk(loop["body"], into_closures=False) if x.get("k") == "Continue" and False]
-        run.check(okf, "R8.3", path, "counter-loop", F.loc(b, loop), "the `for` loop of the iteration does not range up to n_max",
-                  sample="%s: for _ in a..n_max" % path.split("::")[-1])
-        tail = peel(b["body"].get("expr") or {})
-        run.check(tail.get("k") == "Call" and (callee(tail) or "").endswith("Err"), "R8.3", path, "cap-gives-err", F.loc(b),
-                  "exhausting the iteration cap does not return Err")
-        return
-    c = peel(loop["c"]) if ok else {}
-    ok = ok and c.get("k") == "Bin" and c["op"] in ("Lt", "Le") and peel(c["l"]).get("k") == "Local" and peel(c["r"]).get("k") == "Local" and peel(c["r"])["name"] == "n_max"
-    if ok:
-        cid = peel(c["l"])["id"]
-
-        def is_inc(x):
-            return x.get("k") == "AssignOp" and x["op"] == "AddAssign" and peel(x["l"]).get("k") == "Local" and peel(x["l"])["id"] == cid \
-                and peel(x["r"]).get("lit") == "int" and int(peel(x["r"])["v"]) > 0
-        conts = [x for x in walk(loop["body"], into_closures=False) if x.get("k") == "Continue"]
-        others = [x for x in walk(loop["body"]) if x.get("k") in ("Assign", "AssignOp") and peel(x["l"]).get("k") == "Local" and peel(x["l"])["id"] == cid and not is_inc(x)]
-        ok = must_reach(loop["body"], is_inc) and not conts and not others
-    run.check(ok, "R8.3", path, "counter-loop", F.loc(b, loop), "the iteration is not a counter loop bounded by n_max with an increment on every completed iteration",
-              sample="%s: while n < n_max, n += 1 on every iteration" % path.split("::")[-1])
+    ok, form, why = caps.bounded_by_cap(b, loop)
+    run.check(ok, "R8.3", path, "counter-loop", F.loc(b, loop), "the iteration is not bounded by the iteration cap: %s" % why,
+              sample="%s: %s bounded by the cap" % (path.split("::")[-1], form))
     tail = peel(b["body"].get("expr") or {})
     run.check(tail.get("k") == "Call" and (callee(tail) or "").endswith("Err"), "R8.3", path, "cap-gives-err", F.loc(b),
               "exhausting the iteration cap does not return Err")
